@@ -19,6 +19,7 @@ RULE = ("generated clean and noisy streams delivered as stdin under several read
         "least two values")
 
 NO_ASTRAL = c06.NO_ASTRAL
+PROC_FILE = "/proc/sys/kernel/pid_max"      # a regular file (S_ISREG) of reported size 0 that delivers a JSON number and a line feed
 SEL = ["--select", ".=v", "--select", "&index=i", "--select", "&index-in-file=f", "--select", "&file-name=n",
        "--select", "&started-at-line-number=sl", "--select", "&started-at-char-number=sc",
        "--select", "&ended-at-line-number=el", "--select", "&ended-at-char-number=ec"]
@@ -135,6 +136,27 @@ def run_unit(ctx, unit):
         ("alt-spelling-file", core.Case(alt_args + ["@D@/whole.json"], b"", files=[("whole.json", data)])),
         ("single-selector", core.Case(single + ["@D@/whole.json"], b"", files=[("whole.json", data)])),
     ]
+    deep = "d40/" + "n/" * 40 + "whole.json"
+    variants += [
+        # an unrelated --set in front of the pipeline changes nothing the selectors report
+        ("with-set", core.Case(["--set", "one=1", "--set", "@two=(len .)"] + args, data)),
+        # "if any of the files is a directory, all its files will be used": also forty levels down
+        ("deep-dir", core.Case(args + ["@D@/d40"], b"", files=[(deep, data)])),
+        # one file named twice: two readings, the second with its own &index values - rows that --unique cannot call duplicates
+        ("twice", core.Case(args + ["@D@/whole.json", "@D@/whole.json"], b"", files=[("whole.json", data)])),
+        ("twice-unique", core.Case(["--unique"] + args + ["@D@/whole.json", "@D@/./whole.json"], b"", files=[("whole.json", data)])),
+    ]
+    proc_text = None
+    if k % 16 == 0:
+        # a file whose reported size is not the number of bytes it delivers (procfs says 0): same rows as the same bytes on stdin
+        try:
+            proc_text = open(PROC_FILE, "rb").read()
+        except OSError:
+            proc_text = None
+        if proc_text:
+            variants += [("proc-stdin", core.Case(args, proc_text)),
+                         ("proc-file", core.Case(args + [PROC_FILE], b"")),
+                         ("proc-link-in-dir", core.Case(args + ["@D@/plk"], b"", links=[("plk/b.json", PROC_FILE)]))]
     obs = ctx.drv.run_many([base_case] + [c for _, c in variants])
     base = obs[0]
     by_name = dict((nm, o) for (nm, _), o in zip(variants, obs[1:]))
@@ -210,6 +232,29 @@ def run_unit(ctx, unit):
                 st.violation("stdin-vs-linked-directory", "the same bytes in a file behind a linked directory give different rows", unit,
                              {"stdin_rows": rows[:4], "rows": rl[:4]})
                 return
+        elif name in ("proc-stdin", "proc-file", "proc-link-in-dir", "twice"):
+            continue                      # judged below, against each other
+        elif name == "twice-unique":
+            try:
+                r2 = parse_rows(by_name["twice"].stdout)
+                ru = parse_rows(o.stdout)
+            except jm.JsonError as e:
+                st.violation("unreadable-twice", str(e), unit, None)
+                return
+            if [dict(x, n=None) for x in r2] != [dict(x, n=None) for x in ru] or len(r2) != 2 * len(rows):
+                st.violation("file-twice-unique", "one file named twice: %d rows for one reading, %d for two, %d with --unique (every row carries its own &index)"
+                             % (len(rows), len(r2), len(ru)), unit, {"twice": r2[:6], "unique": ru[:6]})
+                return
+        elif name == "deep-dir":
+            try:
+                rd = parse_rows(o.stdout)
+            except jm.JsonError as e:
+                st.violation("unreadable-deep-dir", str(e), unit, None)
+                return
+            if [dict(x, n=None) for x in rd] != [dict(x, n=None) for x in rows] or any(x.get("n") != ctx.scratch + "/" + deep for x in rd):
+                st.violation("stdin-vs-deep-directory", "the same bytes as a file forty directories below a directory argument give different rows", unit,
+                             {"stdin_rows": rows[:4], "dir_rows": rd[:4]})
+                return
         elif name == "dir":
             try:
                 rd = parse_rows(o.stdout)
@@ -226,6 +271,18 @@ def run_unit(ctx, unit):
             return
         st.count("deliveries_compared")
         st.see("nontrivial", (hash(data) & 0xFFFFFFF, name))
+    if proc_text:
+        try:
+            ps, pf, pl = (parse_rows(by_name[x].stdout) for x in ("proc-stdin", "proc-file", "proc-link-in-dir"))
+        except jm.JsonError as e:
+            st.violation("unreadable-proc", str(e), unit, None)
+            return
+        if [dict(x, n=None) for x in pf] != [dict(x, n=None) for x in ps] or [dict(x, n=None) for x in pl] != [dict(x, n=None) for x in ps] or \
+                (not ps and not unit["only_oa"]):
+            st.violation("stdin-vs-procfs-file", "%s (reported size 0) as a file argument / behind a link in a directory does not give the rows of its bytes on stdin"
+                         % PROC_FILE, unit, {"stdin": ps[:3], "file": pf[:3], "dir": pl[:3], "bytes": proc_text[:80]})
+            return
+        st.count("procfs_files_compared")
     # (b) positions / indices on the clean stream
     exp = unit["expected"]
     spans = unit["spans"]
